@@ -5,7 +5,8 @@
                    Pipe.eval = the specification (plain recursion along the producer relation, no memo/log)
                    needed_top p kw o = the functions o depends on, not cut off by supplied / bound names. *)
 From Coq Require Import Permutation.
-From Verif Require Import Base.Prelude Base.StrOrd Base.Graph Model.Pipe Proofs.GraphFacts Proofs.PipeFacts Proofs.ArgCombFacts.
+From Verif Require Import Base.Prelude Base.StrOrd Base.Graph Model.Pipe Proofs.GraphFacts Proofs.PipeFacts Proofs.ArgCombFacts
+                          Proofs.C02Closing.
 
 (* Complete characterisation: error of the evaluation, else rejection of a surplus keyword, else the value. *)
 Theorem C02_run_characterised : forall body pick p o kw,
@@ -156,6 +157,30 @@ Theorem C02_unread_keywords_irrelevant : forall body pick p kw1 kw2 x,
 Proof. exact unread_keywords_irrelevant. Qed.
 Print Assumptions C02_unread_keywords_irrelevant.
 
+(* with the keywords of an argument combination every root argument the evaluation reads is supplied (no default
+   of the pipeline is consulted) *)
+Theorem C02_arg_combinations_roots_supplied : forall p o cs c kw,
+  wf_pipeline p -> is_output p o = true -> arg_combinations p o = Ok cs -> In c cs ->
+  (forall k, In k (akeys kw) <-> In k c) ->
+  forall f cur, In f (needed_top p kw o) -> In cur (pnames f) -> aget (bound f) cur = None ->
+                is_output p cur = false -> In cur (akeys kw).
+Proof. exact arg_combinations_roots_supplied. Qed.
+Print Assumptions C02_arg_combinations_roots_supplied.
+
+(* CLOSING COROLLARY: take any reference call kw0 that supplies root arguments only and yields v for o.  Every
+   argument combination c of o - its root names filled with the values of kw0, its intermediate names filled with
+   the values the reference call computes for them - is accepted and returns the same v. *)
+Theorem C02_arg_combination_returns_reference_value : forall body pick p, wf_pipeline p -> forall kw0 o cs c kw v,
+  is_output p o = true -> arg_combinations p o = Ok cs -> In c cs ->
+  (forall k, In k (akeys kw0) -> is_output p k = false) ->
+  eval_top body pick p kw0 o = Ok v ->
+  (forall k, In k (akeys kw) <-> In k c) ->
+  (forall k x, aget kw k = Some x ->
+               if is_output p k then eval_top body pick p kw0 k = Ok x else aget kw0 k = Some x) ->
+  eval_top body pick p kw o = Ok v /\ fst (run body pick p o kw false) = Ok (Value v).
+Proof. exact arg_combination_returns_reference_value. Qed.
+Print Assumptions C02_arg_combination_returns_reference_value.
+
 (* ---------- non-vacuity: a diamond with a tuple-output function, a default, a bound value, a rename ---------- *)
 Definition ex_p : pipeline :=
   [ mkf (s "f") [s "a"; s "b"] [(s "x", s "x")] [] [] false;
@@ -174,6 +199,13 @@ Example ex_value :
     (s "h", [(s "b", s "out(b;f(x=1))"); (s "c", s "g(p0=out(a;f(x=1)),y=d_y)"); (s "z", s "B")])]).
 Proof. vm_compute. reflexivity. Qed.
 Example ex_roots : spec_roots ex_p (s "d") = [s "x"; s "y"] /\ root_args ex_p (s "d") = Ok [s "x"; s "y"].
+Proof. vm_compute. auto. Qed.
+
+Example ex_closing :   (* the combination (b, c) of d, filled with the intermediates of the call x=1, returns the same value *)
+  arg_combinations ex_p (s "d") = Ok [[s "a"; s "b"; s "y"]; [s "b"; s "c"]; [s "c"; s "x"]; [s "x"; s "y"]]
+  /\ fst (run Sym.body Sym.pick ex_p (s "d")
+             [(s "b", s "out(b;f(x=1))"); (s "c", s "g(p0=out(a;f(x=1)),y=d_y)")] false)
+     = Ok (Value (s "h(b=out(b;f(x=1)),c=g(p0=out(a;f(x=1)),y=d_y),z=B)")).
 Proof. vm_compute. auto. Qed.
 
 (* the two repaired defects, replayed on the model of the repaired code *)
